@@ -30,6 +30,8 @@ func init() {
 		"os.ReadFile":                           extReadFile,
 		"os.WriteFile":                          extWriteFile,
 		"os.Exit":                               extExit,
+		"os.IsNotExist":                         extIsNotExist,
+		"errors.Is":                             func(fr *frame, args []value) value { panic(pathAbort{"unsupported", "errors.Is"}) },
 		"(*bytes.Buffer).WriteString":           extBufWriteString,
 		"(*bytes.Buffer).WriteByte":             extBufWriteByte,
 		"(*bytes.Buffer).WriteRune":             extBufWriteRune,
@@ -79,6 +81,8 @@ func init() {
 		"strings.Contains":                   extStringsContains,
 		"strings.Repeat":                     extStringsRepeat,
 		"strconv.Itoa":                       extItoa,
+		"strconv.FormatInt":                  extFormatInt,
+		"strconv.FormatUint":                 extFormatInt,
 		"strconv.Atoi":                       extAtoi,
 		"unicode/utf8.RuneCountInString":     extRuneCountInString,
 		"unicode/utf8.EncodeRune":            nil,
@@ -594,11 +598,14 @@ func extReadFile(fr *frame, args []value) value {
 	name := args[0]
 	i.ps.reads = append(i.ps.reads, name)
 	if i.flagged(i.ps.failRead, name) {
-		return tuple{[]value(nil), i.errValue("open " + i.showStr(name) + ": injected failure")}
+		return tuple{[]value(nil), i.errValue("read " + i.showStr(name) + ": is a directory")}
 	}
 	k := i.vfsFind(name)
 	if k < 0 {
 		return tuple{[]value(nil), i.errValue("open " + i.showStr(name) + ": no such file or directory")}
+	}
+	if _, bad := i.ps.vfs[k].data.(unreadable); bad {
+		return tuple{[]value(nil), i.errValue("read " + i.showStr(name) + ": is a directory")}
 	}
 	return tuple{bytesOfString(i, i.ps.vfs[k].data), iface{}}
 }
@@ -614,6 +621,19 @@ func extWriteFile(fr *frame, args []value) value {
 	i.ps.writes = append(i.ps.writes, fsWrite{name, data, true})
 	i.vfsSet(name, data)
 	return iface{}
+}
+
+// unreadable marks a virtual file that exists but cannot be read.
+type unreadable struct{}
+
+// os.IsNotExist on the errors produced by the virtual file system
+func extIsNotExist(fr *frame, args []value) value {
+	e, ok := args[0].(iface)
+	if !ok || e.t == nil {
+		return false
+	}
+	msg, _ := e.v.(string)
+	return strings.Contains(msg, "no such file or directory")
 }
 
 func extExit(fr *frame, args []value) value {
@@ -1117,6 +1137,22 @@ func extStringsRepeat(fr *frame, args []value) value {
 }
 
 func extItoa(fr *frame, args []value) value { return fr.i.itoa(args[0]) }
+
+// strconv.FormatInt / FormatUint in base 10 (other bases: concrete values only)
+func extFormatInt(fr *frame, args []value) value {
+	base := asInt64(args[1])
+	if base == 10 {
+		return fr.i.itoa(args[0])
+	}
+	if isSym(args[0]) {
+		panic(pathAbort{"unsupported", "strconv.FormatInt of a symbolic value in base != 10"})
+	}
+	t, k := fr.i.intTerm(args[0])
+	if kindSigned(k) {
+		return strconv.FormatInt(sext(t.val, t.w), int(base))
+	}
+	return strconv.FormatUint(t.val, int(base))
+}
 
 func extAtoi(fr *frame, args []value) value {
 	s := fr.i.concreteString(args[0], "strconv.Atoi")
